@@ -20,8 +20,9 @@ same functions the driver evaluates on the implementation's trace. The loop cond
 regenerated from the source (`Gen.Buffer.spillCond`). Concurrency: `PushEvent` and `Clear` hold the
 buffer's mutex for their whole duration, so concurrent callers are a sequence of operations.
 
-Internal cap not modelled: the weighted LRU behind `incompletes` is created with the caps
-`MaxInt32`/`MaxInt32`; the theorems assume the buffered count and bytes stay below them.
+The weighted LRU behind `incompletes` is created without a cap of its own (`MaxUint` bytes, `MaxInt`
+entries, since the `fix:` commit 52f91c5; before, a cap of `MaxInt32` evicted silently — corpus
+`lru-cap.ops`), so only `spillIncompletes` removes entries. On 32-bit platforms `MaxInt = 2^31-1`.
 -/
 namespace C14
 open Model.EventsBuffer
